@@ -2,7 +2,7 @@
    followed by Print Assumptions.  [true] selects the model of the repaired code (the code the
    check runs against, fixes/C07-*.patch applied); [false] the code as found. *)
 From Coq Require Import ZArith NArith List Bool Lia.
-From Falcon.C07 Require Import Model Spec ProofsLib ProofsW ProofsA ProofsA2 ProofsA3 ProofsA4.
+From Falcon.C07 Require Import Model Spec ProofsLib ProofsW ProofsA ProofsA2 ProofsA3 ProofsA4 ProofsReq.
 Import ListNotations.
 Open Scope Z_scope.
 
@@ -316,6 +316,61 @@ Theorem C07_asgi_exhaust_oversized_refuted_before_fix :
 Proof. exact asgi_exhaust_oversized_refuted_before_fix. Qed.
 Print Assumptions C07_asgi_exhaust_oversized_refuted_before_fix.
 
+(* ======================= the request objects =======================
+   falcon.Request: req.stream is env['wsgi.input'] itself; req.bounded_stream is created at most
+   once as BoundedStream(wsgi.input, Content-Length or 0; absent/empty/invalid/negative => 0).
+   falcon.asgi.Request: req.stream creates, at most once, BoundedStream(receive, first_event,
+   content_length); req.bounded_stream is an alias. *)
+
+(* one shared cursor: however the two WSGI accessors are interleaved, what they return, in
+   call order, is exactly what wsgi.input handed out; the bounded accessor never returns
+   more than the effective Content-Length; the wrapper is constructed at most once *)
+Theorem C07_wsgi_accessors_share_cursor : forall c data caps ops,
+  forallb qop_ok ops = true ->
+  let q0 := q_init c (src0 data caps) in
+  let tr := qrun ops q0 in
+  data = qbytes tr ++ s_data (q_src (qend tr q0)) /\
+  s_pos (q_src (qend tr q0)) = len (qbytes tr) /\
+  qbounded_len ops tr <= wsgi_budget c /\
+  0 <= q_made (qend tr q0) <= 1.
+Proof. exact wsgi_accessors_share_cursor. Qed.
+Print Assumptions C07_wsgi_accessors_share_cursor.
+
+(* through req.bounded_stream alone the history is that of BoundedStream(wsgi.input,
+   wsgi_budget c): all C07_wsgi_* theorems apply with cl := wsgi_budget c *)
+Theorem C07_wsgi_bounded_accessor_is_bounded_stream : forall c data caps ops,
+  let q0 := q_init c (src0 data caps) in
+  let st0 := w_init (wsgi_budget c) (src0 data caps) in
+  map fst (qrun (map QBounded ops) q0) = map fst (wrun true ops st0) /\
+  q_src (qend (qrun (map QBounded ops) q0) q0) = w_src (wend (wrun true ops st0) st0).
+Proof. exact wsgi_bounded_accessor_is_bounded_stream. Qed.
+Print Assumptions C07_wsgi_bounded_accessor_is_bounded_stream.
+
+(* ASGI: which accessor is used never matters *)
+Theorem C07_asgi_accessors_alias : forall ops rq,
+  areq_run ops rq = areq_run (map (fun p => (true, snd p)) ops) rq.
+Proof. exact asgi_accessors_alias. Qed.
+Print Assumptions C07_asgi_accessors_alias.
+
+(* ASGI: with a valid or absent Content-Length the accessors expose the one
+   BoundedStream(receive, first_event, content_length), created once: all C07_asgi_* apply *)
+Theorem C07_asgi_request_stream_is_bounded_stream : forall first c cl events ops,
+  content_length c = Some cl ->
+  let rq0 := areq_init first c events in
+  map fst (areq_run ops rq0) = map fst (arun true (map snd ops) (a_init true first cl events)) /\
+  0 <= rq_made (rqend (areq_run ops rq0) rq0) <= 1.
+Proof. exact asgi_request_stream_is_bounded_stream. Qed.
+Print Assumptions C07_asgi_request_stream_is_bounded_stream.
+
+(* ASGI: an invalid Content-Length is reported (HTTPInvalidHeader) by every access *)
+Theorem C07_asgi_invalid_content_length : forall first c events ops,
+  content_length c = None ->
+  let rq0 := areq_init first c events in
+  Forall (fun p => fst p = AErr EInvalidHeader) (areq_run ops rq0) /\
+  rqend (areq_run ops rq0) rq0 = rq0.
+Proof. exact asgi_invalid_content_length. Qed.
+Print Assumptions C07_asgi_invalid_content_length.
+
 (* ---- non-vacuity: concrete non-trivial histories meeting the hypotheses *)
 Example C07_wsgi_example :
   let ops := [WReadline None; WRead (Some 2); WEof; WReadlines None; WEof] in
@@ -345,3 +400,11 @@ Example C07_asgi_exhaust_example :
   disciplined ops st0 = true /\
   map fst (arun true ops st0) = [ABytes [97; 98]%N; AInt 2; ANone; AInt 6; ABool true; ABytes []].
 Proof. vm_compute. split; reflexivity. Qed.
+
+Example C07_wsgi_request_example :
+  let ops := [QRawRead (Some 1); QBounded (WRead (Some 2)); QRawReadline None; QBounded (WRead None)] in
+  let q0 := q_init (CValue 4) (src0 b_abcd []) in
+  forallb qop_ok ops = true /\
+  map fst (qrun ops q0) = [RBytes [97]%N; RBytes [98; 10]%N; RBytes [99; 100; 10]%N; RBytes []] /\
+  q_made (qend (qrun ops q0) q0) = 1.
+Proof. vm_compute. repeat split; reflexivity. Qed.
